@@ -129,3 +129,67 @@ func H_C03_std() {
 	f.renderImports(ib)
 	verifAssert(ib.String() == refImportBlock(entries, nil), "import block matches")
 }
+
+// One reference from an arbitrary valid import table (inductive step, cf. H_C05_step): the
+// qualifier chosen for a further path is bound to that path only.
+func H_C03_step() {
+	impSummaries()
+	canonicalMapOrder()
+	f := NewFile("p")
+	impPrefix(f)
+	n0, n1 := nondetString("n0"), nondetString("n1")
+	verifAssume(verifMatch(n0, reIdent))
+	verifAssume(verifMatch(n1, reIdent))
+	verifAssume(n0 != n1)
+	f.imports["pre.example/0"] = importdef{name: n0, alias: nondetBool("a0")}
+	f.imports["pre.example/1"] = importdef{name: n1, alias: nondetBool("a1")}
+	p := impPath(0)
+	verifAssume(p != "pre.example/0")
+	verifAssume(p != "pre.example/1")
+	hk := impHint(f, 0, p)
+	b := &bytes.Buffer{}
+	Qual(p, "X").render(f, b, nil)
+	out := b.String()
+	verifAssert(len(out) > 2 && out[len(out)-2:] == ".X", "reference is q.X")
+	if len(out) <= 2 {
+		return
+	}
+	q := out[:len(out)-2]
+	d := f.imports[p]
+	verifAssert(d.name == q, "the import block binds the qualifier that was rendered")
+	verifAssert(q != n0 && q != n1, "and binds it to this path only")
+	if !d.alias {
+		verifAssert(hk == 1 && q == nondetString(hintNames[0]), "an import without alias is qualified by the name the user supplied")
+	}
+}
+
+// References made through Statement/Group.RenderWithFile are recorded in the File exactly like
+// references made by File.Render: the table binds the path to a usable name, and the File's own
+// render refers to the path by that name.
+func H_C03_renderwithfile() {
+	impSummaries()
+	canonicalMapOrder()
+	f := NewFile("p")
+	p := leadPath(0)
+	hk := impHint(f, 0, p)
+	_ = hk
+	if nondetBool("anon_first") {
+		f.Anon(p)
+	}
+	w := &bytes.Buffer{}
+	var err error
+	if nondetChoice("entry", 2) == 0 {
+		err = Qual(p, "X").Call().RenderWithFile(w, f)
+	} else {
+		err = List(Qual(p, "X")).RenderWithFile(w, f)
+	}
+	if err != nil {
+		return // the snippet did not format: nothing is claimed
+	}
+	d := f.imports[p]
+	verifAssert(d.name != "" && d.name != "_", "a path referenced through RenderWithFile is registered under a usable name")
+	b := &bytes.Buffer{}
+	Qual(p, "Y").render(f, b, nil)
+	verifAssert(b.String() == d.name+".Y", "later references use the registered name")
+	verifAssert(f.imports[p].name == d.name, "and the registration is unchanged")
+}
